@@ -224,6 +224,7 @@ class Store:
         self.formed = False
         self.up = False
         self.params = None
+        self.children = {}  # leaving the network erases the child table
         self.emit(h, "stackStatusHandler", status=(t.sl_Status.NETWORK_DOWN if h.VERSION >= 14 else t.EmberStatus.NETWORK_DOWN))
 
     def cmd_getNetworkParameters(self, h, a):
